@@ -76,8 +76,10 @@ struct upipe_autoin {
     struct urefcount urefcount_real;
     /** inner probe */
     struct uprobe proxy_probe;
-    /** current inner pipe */
-    struct upipe *inner;
+    /** current inner pipe (bin input) */
+    struct upipe *first_inner;
+    /** current inner pipe (bin output) */
+    struct upipe *last_inner;
     /** input request list */
     struct uchain input_request_list;
     /** output request list */
@@ -93,9 +95,11 @@ UPIPE_HELPER_FLOW(upipe_autoin, NULL);
 UPIPE_HELPER_UREFCOUNT(upipe_autoin, urefcount, upipe_autoin_no_ref);
 UPIPE_HELPER_UREFCOUNT_REAL(upipe_autoin, urefcount_real, upipe_autoin_free);
 UPIPE_HELPER_UPROBE(upipe_autoin, urefcount_real, proxy_probe, NULL);
-UPIPE_HELPER_INNER(upipe_autoin, inner);
-UPIPE_HELPER_BIN_INPUT(upipe_autoin, inner,  input_request_list);
-UPIPE_HELPER_BIN_OUTPUT(upipe_autoin, inner, bin_output, output_request_list);
+UPIPE_HELPER_INNER(upipe_autoin, first_inner);
+UPIPE_HELPER_INNER(upipe_autoin, last_inner);
+UPIPE_HELPER_BIN_INPUT(upipe_autoin, first_inner, input_request_list);
+UPIPE_HELPER_BIN_OUTPUT(upipe_autoin, last_inner, bin_output,
+                        output_request_list);
 
 /** @internal @This allocates and initializes a pipe.
  *
@@ -120,7 +124,8 @@ static struct upipe *upipe_autoin_alloc(struct upipe_mgr *mgr,
     upipe_autoin_init_urefcount(upipe);
     upipe_autoin_init_urefcount_real(upipe);
     upipe_autoin_init_proxy_probe(upipe);
-    upipe_autoin_init_inner(upipe);
+    upipe_autoin_init_first_inner(upipe);
+    upipe_autoin_init_last_inner(upipe);
     upipe_autoin_init_bin_input(upipe);
     upipe_autoin_init_bin_output(upipe);
 
@@ -144,7 +149,8 @@ static void upipe_autoin_free(struct upipe *upipe)
     uref_free(upipe_autoin->alloc_flow_def);
     upipe_autoin_clean_bin_output(upipe);
     upipe_autoin_clean_bin_input(upipe);
-    upipe_autoin_clean_inner(upipe);
+    upipe_autoin_clean_last_inner(upipe);
+    upipe_autoin_clean_first_inner(upipe);
     upipe_autoin_clean_proxy_probe(upipe);
     upipe_autoin_clean_urefcount_real(upipe);
     upipe_autoin_clean_urefcount(upipe);
@@ -243,7 +249,7 @@ static int upipe_autoin_control(struct upipe *upipe, int command, va_list args)
         case UPIPE_BIN_GET_LAST_INNER:
             return upipe_autoin_control_bin_output(upipe, command, args);
     }
-    return upipe_autoin_control_inner(upipe, command, args);
+    return upipe_autoin_control_first_inner(upipe, command, args);
 }
 
 /** @internal @This finds an inner pipe manager item already added.
